@@ -55,6 +55,8 @@ def applicable_faults(prog, kinds=None, extra=()):
         out.append({'kind': 'extractor', 'mode': mode})
     for mode in ('junk_keys', 'junk_pairs', 'junk_str'):
         out.append({'kind': 'extractor_odd', 'mode': mode})
+    if 'extractor_discards' in extra:
+        out.append({'kind': 'extractor_odd', 'mode': 'discards'})
     out.append({'kind': 'save_fails'})
     if 'bad_params' in extra:
         # misconfigured recording parameters: the sampling decision at the end of the operation raises
